@@ -65,6 +65,7 @@ func TestVerif(t *testing.T) {
 		verifConcurrentFailures(t, out)
 		// a flapping link: a change notified while the interface is being re-established
 		verifLinkFlap(t, r, out)
+		verifAdvFail(t, r, out)
 	case "C11":
 		// nothing in virtual time: the network-namespace scenario (TestVerifNetns) is this
 		// package's part of C11
